@@ -60,6 +60,33 @@ FLAG_GUARDS = [
 ]
 
 
+def _guarded_at_callers(P, fn, pidx, depth):
+    """Every crate-local call site of `fn` passes for parameter pidx either a derived value (not a bare
+    parameter of the caller) or a caller parameter that is identity-guarded on the path to the call."""
+    sites = P.callers().get(fn.key, [])
+    if not sites or fn.vis == "Public" and fn.trait_default_of is None and False:
+        return False, "- no crate-local caller found"
+    for g, bb, t in sites:
+        gev = evaluate(g)
+        st = gev.sites.get(bb)
+        if st is None or pidx - 1 >= len(st.args):
+            return False, "- unexpected call shape in %s" % g.key
+        a = st.args[pidx - 1]
+        while a.op in ("ref", "deref"):
+            a = a.a[0]
+        if a.op != "param":
+            continue  # derived value (hash output, product, negation ...): no guard obligation
+        lits = G.path_literals(gev, bb, P)
+        if R.has_literal(lits, "is_identity", ("param", a.a[1]), False):
+            continue
+        if depth > 0:
+            ok, how = _guarded_at_callers(P, g, a.a[0], depth - 1)
+            if ok:
+                continue
+        return False, "- caller `%s` passes its parameter `%s` without a guard" % (g.key, a.a[1])
+    return True, "at every call site of the private helper `%s`" % fn.key
+
+
 def run(ctx):
     P = ctx.P
     for fk, kind, subj in RESULT_GUARDS:
@@ -124,7 +151,11 @@ def run(ctx):
             n += 1
             subj = ("param", p.a[1])
             ok = R.has_literal(lits, "is_identity", subj, False) or R.has_literal(flag_lits, "is_identity", subj, False)
-            ctx.ob("E7.pairing-slot", "%s/%s" % (fn.key, p.a[1]), ok, "parameter `%s` enters a pairing slot unmodified and must be identity-guarded in `%s` (dominating branch or conjunct of the returned flag)" % (p.a[1], fn.key), where=where(fn, bb))
+            how = "in the function itself"
+            if not ok:
+                # private helper: the guard may sit in every caller (stated inlining bound: 2 levels)
+                ok, how = _guarded_at_callers(P, fn, p.a[0], 2)
+            ctx.ob("E7.pairing-slot", "%s/%s" % (fn.key, p.a[1]), ok, "parameter `%s` enters a pairing slot unmodified and must be identity-guarded (dominating branch or conjunct of the returned flag) %s" % (p.a[1], how), where=where(fn, bb))
     ctx.floor("E7.pairing-slot", "parameters entering pairing slots directly", n, 9)
     # the guards must see the caller's values: scheme methods hand keys/lists to the guarded cores unmodified
     from . import constructions as K
